@@ -443,6 +443,19 @@ def run(world, rep, tier, only=None):
                    (shown, hit))
     rep.floor("C05.j comparisons with EXT2_DIR_REC_LEN in the inline directory checks", n_eq, 2)
 
+    # ------------------------------------------------------------------ C05.k every block of a rebuilt directory is mapped before it is written
+    # write_directory() writes the rebuilt blocks with a walk over the directory's *mapped* blocks, so it first makes
+    # the mapping as long as the rebuilt directory (e2fsck_expand_directory to outdir->num).  That call is not a matter
+    # of sizes - clusters allocated beyond i_size are not mapped - : it comes before the walk on every path.
+    wdir = prog.fn("write_directory", "e2fsck/rehash.c")
+    walk = calls_to(wdir, "ext2fs_block_iterate3", "ext2fs_block_iterate2")
+    expd = calls_to(wdir, "e2fsck_expand_directory")
+    rep.floor("C05.k block walk in write_directory", len(walk), 1)
+    for i, w_ in enumerate(walk):
+        rep.ob("C05.k", site(wdir, "mapping extended to the rebuilt length before the blocks are written#%d" % i),
+               bool(expd) and wdir.dominated_by(w_, expd),
+               "e2fsck_expand_directory() lies on every path to the walk that writes the blocks (line %d)" % w_.line)
+
 
 def _fmt_lin(f):
     return " + ".join(("%s" % v if k == 1 else ("%s" % k if v == 1 else "%d*%s" % (v, k))) for k, v in sorted(f.items(), key=lambda kv: str(kv[0])) if v != 0) or "0"
